@@ -45,4 +45,3 @@ func casDamage(before, after map[string][]byte) string {
 	}
 	return ""
 }
-
